@@ -32,6 +32,7 @@ func runStack(c *hlib.Ctx) {
 		n := 1 + c.Rng.Intn(5)
 		var parts []string
 		solids := make([]model3d.Solid, n)
+		inners := make([][2][3]float64, n)
 		for i := 0; i < n; i++ {
 			var lo, hi, ilo, ihi [3]float64
 			for a := 0; a < 3; a++ {
@@ -44,6 +45,7 @@ func runStack(c *hlib.Ctx) {
 					ilo[a], ihi[a] = lo[a], hi[a]
 				}
 			}
+			inners[i] = [2][3]float64{ilo, ihi}
 			inner := model3d.NewRect(model3d.NewCoord3DArray(ilo), model3d.NewCoord3DArray(ihi))
 			solids[i] = model3d.FuncSolid(model3d.NewCoord3DArray(lo), model3d.NewCoord3DArray(hi), inner.Contains)
 			parts = append(parts, ratsOf(lo), ratsOf(hi), ratsOf(ilo), ratsOf(ihi))
@@ -68,6 +70,14 @@ func runStack(c *hlib.Ctx) {
 			}
 			span := int((zmax-zmin)*4) + 5
 			p[2] = zmin - 0.5 + float64(c.Rng.Intn(span))/4
+			if c.Rng.Intn(3) != 0 {
+				// x, y taken from the contents of one operand (corner, edge or interior),
+				// so that the answer depends on where along z that operand was moved to
+				in := inners[c.Rng.Intn(n)]
+				for a := 0; a < 2; a++ {
+					p[a] = []float64{in[0][a], in[1][a], (in[0][a] + in[1][a]) / 2}[c.Rng.Intn(3)]
+				}
+			}
 			qs = append(qs, ratsOf(p))
 			outs = append(outs, hlib.Guard(func() string {
 				a := st.Contains(model3d.NewCoord3DArray(p))
@@ -165,8 +175,8 @@ func runRectSet(c *hlib.Ctx) {
 			return
 		}
 		if len(last) == 2 {
-			// the child died inside Solid()/Contains of this history
-			c.Emit(last[1]+" 0", "crash:RectSet.Solid()-or-Contains-killed-the-process(stack-overflow?)")
+			// the child died inside Solid()/Contains of this history / program prefix
+			c.Emit(last[1], "crash:RectSet.Solid()-or-Contains-killed-the-process(stack-overflow?)")
 		}
 		skip = append(skip, last[0])
 		c.Stat("c04.rectset.child_crashes", 1)
@@ -183,16 +193,24 @@ func rectSetChild(c *hlib.Ctx) {
 			skip[s] = true
 		}
 	}
-	progress := func(k int, head string) {
+	// progress(id, "") = case id is being generated; progress(id, line) = the
+	// real code is about to be run on this (complete, replayable) op line.
+	progressID := func(id string, line string) {
 		f, err := os.OpenFile(os.Getenv("C04_RS_PROGRESS"), os.O_APPEND|os.O_CREATE|os.O_WRONLY, 0o644)
 		if err == nil {
-			if head == "" {
-				fmt.Fprintf(f, "%d\n", k)
+			if line == "" {
+				fmt.Fprintf(f, "%s\n", id)
 			} else {
-				fmt.Fprintf(f, "%d\t%s\n", k, head)
+				fmt.Fprintf(f, "%s\t%s\n", id, line)
 			}
 			f.Close()
 		}
+	}
+	progress := func(k int, head string) {
+		if head != "" {
+			head += " 0"
+		}
+		progressID(strconv.Itoa(k), head)
 	}
 	c.Rng = rand.New(rand.NewSource(sub))
 	for k := 0; k < c.N/2+1; k++ {
@@ -313,6 +331,7 @@ func rectSetChild(c *hlib.Ctx) {
 			fmt.Sprintf("R=%s S=%s Q=%s", strings.Join(rparts, ";"), strings.Join(sparts, "|"), qbits.String()))
 		c.Stat("c04.rectset.cases", 1)
 	}
+	runRectProgs(c, skip, progressID)
 }
 
 func bucket(n int) string {
